@@ -739,6 +739,10 @@ func binop(op token.Token, t types.Type, x, y value) value {
 // If t is a reference type, at most one of x or y may be a nil value
 // of that type.
 func eqnil(t types.Type, x, y value) bool {
+	if t == nil {
+		// callers without static type information compare scalars only
+		return equals(types.Typ[types.Int], x, y)
+	}
 	switch t.Underlying().(type) {
 	case *types.Map, *types.Signature, *types.Slice:
 		// Since these types don't support comparison,
